@@ -95,8 +95,15 @@ def _calls_ok(n: ast.AST) -> bool:
 
 def discharged(model: Model, g: FuncInfo, st: ast.Assert) -> bool:
     try:
-        return _discharged(model, g, st)
+        if _discharged(model, g, st):
+            return True
     except (Inconclusive, RecursionError, KeyError, AttributeError, TypeError, ValueError):
+        pass
+    # second tactic: every quantity the test reads ranges over a finite set (enum members, call-site constants): enumerate
+    try:
+        from .valueset import discharged_finite
+        return discharged_finite(model, g, st, _find_block)
+    except (RecursionError, KeyError, AttributeError, TypeError, ValueError):
         return False
 
 
